@@ -92,6 +92,9 @@ def env():
             self.kind = kind
             self.rb = rb
 
+        def __len__(self):
+            return 0          # an exported object that is FALSY in Python (an empty collection): it is exported all the same
+
         def dbus_Who(self):
             return '%d:%s' % (self.kind, self.getObjectPath())
 
